@@ -40,8 +40,12 @@ ATTEST_MC = [
 ATTEST_GEN = [
     dict(name="gendev", tiers=["dev"], consts=attest_consts(O2, B3, 2, 1, 3), overrides={"Stake": "StakeEdge2"},
          harness=[attest_harness("eth", O2, B3, 2, STAKES["StakeEdge2"])], shards=14, rej_sample=2),
-    dict(name="gen2", tiers=["quick"], consts=attest_consts(O2, B3, 2, 2, 3), overrides={"Stake": "StakeEdge2"},
-         harness=[attest_harness("eth", O2, B3, 2, STAKES["StakeEdge2"])], shards=14, rej_sample=2),
+    # quick: two small families instead of one big one - (a) two nonces, competing claims, one membership operation;
+    # (b) one nonce, two membership operations and a third bond (removal -> unbond -> re-approval -> re-bond -> vote again)
+    dict(name="gen2a", tiers=["quick"], consts=attest_consts(O2, B3, 2, 1, 2), overrides={"Stake": "StakeEdge2"},
+         harness=[attest_harness("eth", O2, B3, 2, STAKES["StakeEdge2"])], shards=14, rej_sample=3),
+    dict(name="gen2b", tiers=["quick"], consts=attest_consts(O2, B3, 1, 2, 3), overrides={"Stake": "StakeEdge2"},
+         harness=[attest_harness("eth", O2, B3, 1, STAKES["StakeEdge2"])], shards=14, rej_sample=0),
     dict(name="gen2odd", tiers=["quick", "thorough"], consts=attest_consts(O2, B3, 2, 1, 2), overrides={"Stake": "StakeOdd2"},
          harness=[attest_harness("eth", O2, B3, 2, STAKES["StakeOdd2"])], shards=14, rej_sample=2),
     dict(name="gen2full", tiers=["thorough"], consts=attest_consts(O2, B3, 2, 2, 3), overrides={"Stake": "StakeEdge2"},
